@@ -908,12 +908,12 @@ def compress_rule(ctx, syn):
     ctx.floor(r, merged, 6, "merging pairs")
 
 
-def expand_rule(ctx, syn):
+def expand_rule(ctx, syn, rid="C01.EXPAND"):
     """the other half of range compression: SelectorIter::get_internal_ranged_item turns item i of an internal ranged
     selector back into the selector it stands for.  inserted() builds the reverse indices from this iterator, so an
     expansion that loses the text reference leaves the annotation out of the text index."""
     from formula import Evaluator, Unknown, Panic, StructVal, EnumVal, some, is_some, ok
-    r = ctx.rule("C01.EXPAND", "item i of an internal ranged selector expands to the selector it replaced: handle begin+i, default offset mode, and for a ranged annotation selector with text the text selection of the target annotation however that annotation reaches its text (text selector or annotation selector with offset)")
+    r = ctx.rule(rid, "item i of an internal ranged selector expands to the selector it replaced: handle begin+i, default offset mode, and for a ranged annotation selector with text the text selection of the target annotation however that annotation reaches its text (text selector or annotation selector with offset)")
     fs = [f for f in syn.fns if f.name == "get_internal_ranged_item" and f.file == "src/selector.rs"]
     th = [f for f in syn.fns if f.name == "textselection_handle" and f.file == "src/selector.rs" and (f.self_ty or "") == "Selector"]
     rh = [f for f in syn.fns if f.name == "resource_handle" and f.file == "src/selector.rs" and (f.self_ty or "") == "Selector"]
